@@ -27,9 +27,8 @@ func TestVerifE3HTTPConcurrentAdmin(t *testing.T) {
 	lo := nsqlookupd.NewOptions()
 	lo.Logger = vfE3CCNull{}
 	lo.LogLevel = lg.FATAL
-	lo.TCPAddress = "127.0.0.1:0"
-	lo.HTTPAddress = "127.0.0.1:0"
-	lo.BroadcastAddress = "127.0.0.1"
+	lo.TCPAddress, lo.HTTPAddress = vfLoop2()
+	lo.BroadcastAddress = vfLoopHost(lo.TCPAddress)
 	lookupd, err := nsqlookupd.New(lo)
 	if err != nil {
 		t.Fatal(err)
@@ -43,9 +42,8 @@ func TestVerifE3HTTPConcurrentAdmin(t *testing.T) {
 	no := nsqd.NewOptions()
 	no.Logger = vfE3CCNull{}
 	no.LogLevel = lg.FATAL
-	no.TCPAddress = "127.0.0.1:0"
-	no.HTTPAddress = "127.0.0.1:0"
-	no.BroadcastAddress = "127.0.0.1"
+	no.TCPAddress, no.HTTPAddress = vfLoop2()
+	no.BroadcastAddress = vfLoopHost(no.TCPAddress)
 	no.NSQLookupdTCPAddresses = []string{lookupd.RealTCPAddr().String()}
 	no.DataPath = t.TempDir()
 	d, err := nsqd.New(no)
@@ -63,7 +61,7 @@ func TestVerifE3HTTPConcurrentAdmin(t *testing.T) {
 	ao := NewOptions()
 	ao.Logger = vfE3CCNull{}
 	ao.LogLevel = lg.FATAL
-	ao.HTTPAddress = "127.0.0.1:0"
+	ao.HTTPAddress = vfLoopAddr()
 	ao.NSQLookupdHTTPAddresses = []string{lookupd.RealHTTPAddr().String()}
 	ao.HTTPClientConnectTimeout = 60 * time.Second
 	ao.HTTPClientRequestTimeout = 120 * time.Second
